@@ -1,6 +1,374 @@
-/- C13 — property theorems.  Stub. -/
-import CBV.Model.C13
+/-
+C13 — property theorems about the optimiser model `CBV.C13.optimize` (Model/C13.lean), for EVERY
+oracle: quality function, clamp position functions, link functions, list of parameter vectors the
+solver / the sensitivity probe evaluates, sensitivities (hence every order of the clamps), tolerance
+criterion, iteration limit.
+
+  T_C13_frame      points that are neither clamped nor followers of a clamped leader never change
+  T_C13_on         clamped points are at `pos j (params j)` (hence on the manifold), preserved always,
+                   established by the first iteration from any state
+  T_C13_links      followers are at `link(leader)`
+  T_C13_bounds     parameters stay in any set that contains the initial and the evaluated ones
+  T_C13_rollback   `optimize_clamp`: unless it reports an improvement the state is exactly the one before;
+                   when it does, the grid quality is strictly smaller
+  T_C13_sens       the sensitivity probe gives back the state
+  T_C13_noworse    grid quality after `optimize_clamp` / `optimize` ≤ before (`_general`: from any state,
+                   relative to the state the first probes leave)
+  T_C13_noraise    no `ValueError` leaves `optimize` (rolled back, never half-applied)
+  T_C13_fuel       the `while` loop needs at most `max_iterations` rounds
+  T_C13_order      the sorted clamp order is a permutation of the probed clamps
+  T_C13_backport_mesh / _sketch   mesh vertices / sketch positions after the back-port = final grid points
+-/
+import CBV.Lemmas.C13
+import Mathlib.Data.List.Perm.Basic
+import Mathlib.Order.Basic
+import Mathlib.Algebra.Order.Ring.Int
+import Mathlib.Tactic.IntervalCases
+import Mathlib.Tactic.Ring
+import Mathlib.Algebra.Order.Field.Rat
 
 namespace CBV.C13
+
+variable {P Prm Q S : Type}
+
+/-! ### frame -/
+
+/-- **Frame.** For every configuration (well-formed or not), every oracle and every schedule: a grid
+    point that carries no clamp and is not the follower of a link whose leader carries a clamp has
+    the same value after `optimize` as before; the number of points does not change. -/
+theorem T_C13_frame [LinearOrder Q] [LinearOrder S] (cfg : Cfg P Prm) (o : Oracles P Q)
+    (conv : List (Q × Q) → Bool) (maxIter : Nat) (sched : Nat → IterSched Prm S) (st : St P Prm) :
+    (optimize cfg o conv maxIter sched st).st.pts.length = st.pts.length ∧
+      ∀ k, ¬ movable cfg k → (optimize cfg o conv maxIter sched st).st.pts[k]? = st.pts[k]? :=
+  optimize_pres (preserved_frame st) conv maxIter sched (fun _ => ⟨fun _ _ _ => trivial, fun _ _ _ _ => trivial⟩)
+    st ⟨rfl, fun _ _ => rfl⟩
+
+/-! ### clamped points on their clamp position, followers on their link -/
+
+/-- **On, preservation.** In a well-formed configuration, sizes and consistency (every clamped
+    point equals `pos j (params j)`, every follower of a clamped leader equals `link(pos j (params j))`)
+    are preserved by `optimize`, whatever happens inside (also when a `ValueError` escapes). -/
+theorem T_C13_on [LinearOrder Q] [LinearOrder S] {cfg : Cfg P Prm} {n : Nat} (hwf : WF cfg n) (o : Oracles P Q)
+    (conv : List (Q × Q) → Bool) (maxIter : Nat) (sched : Nat → IterSched Prm S) (st : St P Prm)
+    (hr : Rest cfg n st) : Rest cfg n (optimize cfg o conv maxIter sched st).st := by
+  have := optimize_pres (preserved_cons (o := o) hwf (fun _ => True)) conv maxIter sched
+    (fun _ => ⟨fun _ _ _ => trivial, fun _ _ _ _ => trivial⟩) st ⟨hr.1, hr.2.1, fun j _ => hr.2.2 j⟩
+  exact ⟨this.1, this.2.1, fun j => this.2.2 j trivial⟩
+
+/-- **On, establishment.** From ANY state of the right size (clamped vertices need not sit exactly on
+    their clamp position, followers need not match their link — the situation right after
+    `add_clamp` / `add_link`): if `optimize` completes at least one iteration and nothing is raised,
+    the final state is consistent. -/
+theorem T_C13_on_established [LinearOrder Q] [LinearOrder S] {cfg : Cfg P Prm} {n : Nat} (hwf : WF cfg n)
+    (o : Oracles P Q) (conv : List (Q × Q) → Bool) (maxIter : Nat) (sched : Nat → IterSched Prm S)
+    (st : St P Prm) (hlen : st.pts.length = n) (hplen : st.prm.length = cfg.clampIdx.length)
+    (hnr : (optimize cfg o conv maxIter sched st).raised = none)
+    (hit : (optimize cfg o conv maxIter sched st).hist ≠ []) :
+    Rest cfg n (optimize cfg o conv maxIter sched st).st :=
+  optimizeLoop_establish hwf conv maxIter sched maxIter [] [] st hlen hplen hnr hit
+
+/-- hence on the manifold: if every value of the clamp function lies on the clamp's manifold, the
+    clamped point does -/
+theorem T_C13_on_manifold {cfg : Cfg P Prm} {n : Nat} {st : St P Prm} (hr : Rest cfg n st)
+    (On : Nat → P → Prop) (hOn : ∀ j p, On j (cfg.pos j p)) {j idx : Nat} (hj : cfg.clampIdx[j]? = some idx) :
+    ∃ x, st.pts[idx]? = some x ∧ On j x := by
+  obtain ⟨p, hp⟩ := hr.prm_some hj
+  exact ⟨_, (hr.2.2 j idx p hj hp).1, hOn j p⟩
+
+/-- `hOn` is satisfiable with geometric content: the `LineClamp` function `p1 + t·d` maps every
+    parameter onto the line through `p1` with direction `d` … -/
+example (p1 d : V3) (t : Rat) : V3.cross ((p1 + V3.smul t d) - p1) d = V3.zero := by
+  apply V3.ext' <;> simp [V3.zero] <;> ring
+
+/-- … and the `PlaneClamp` function `p + a·u + b·v` (u, v ⟂ n) onto the plane through `p` with normal `n`
+    (C17 treats the library's clamps in full) -/
+example (p u v n : V3) (a b : Rat) (hu : V3.dot u n = 0) (hv : V3.dot v n = 0) :
+    V3.dot ((p + V3.smul a u + V3.smul b v) - p) n = 0 := by
+  simp only [V3.dot] at hu hv ⊢
+  simp only [V3.sub_x, V3.sub_y, V3.sub_z, V3.add_x, V3.add_y, V3.add_z, V3.smul_x, V3.smul_y, V3.smul_z]
+  have : (p.x + a * u.x + b * v.x - p.x) * n.x + (p.y + a * u.y + b * v.y - p.y) * n.y +
+      (p.z + a * u.z + b * v.z - p.z) * n.z
+      = a * (u.x * n.x + u.y * n.y + u.z * n.z) + b * (v.x * n.x + v.y * n.y + v.z * n.z) := by ring
+  rw [this, hu, hv]; ring
+
+/-- **Links.** In a consistent state every follower of a clamped leader is the image of the
+    leader's current position under its link. -/
+theorem T_C13_links {cfg : Cfg P Prm} {n : Nat} {st : St P Prm} (hr : Rest cfg n st) {j idx : Nat}
+    (hj : cfg.clampIdx[j]? = some idx) (l : Link) (hl : l ∈ cfg.links) (hlead : l.leader = idx) :
+    ∃ x, st.pts[idx]? = some x ∧ st.pts[l.follower]? = some (cfg.linkFn l.lid x) := by
+  obtain ⟨p, hp⟩ := hr.prm_some hj
+  obtain ⟨h0, h1⟩ := hr.2.2 j idx p hj hp
+  exact ⟨_, h0, h1 l (mem_linksOf.mpr ⟨hl, hlead⟩)⟩
+
+/-- **Bounds.** If the parameters held at the start and every parameter vector the probe and the
+    solver evaluate for clamp `j` satisfy `B j` (the solver respects the bounds), then so do the
+    parameters held at the end. -/
+theorem T_C13_bounds [LinearOrder Q] [LinearOrder S] (cfg : Cfg P Prm) (o : Oracles P Q)
+    (conv : List (Q × Q) → Bool) (maxIter : Nat) (sched : Nat → IterSched Prm S) (st : St P Prm)
+    (B : Nat → Prm → Prop) (h0 : ∀ j p, st.prm[j]? = some p → B j p) (hs : ∀ k, SchedOK B (sched k)) :
+    ∀ j p, (optimize cfg o conv maxIter sched st).st.prm[j]? = some p → B j p :=
+  optimize_pres (preserved_bounds B) conv maxIter sched hs st h0
+
+/-! ### rollback, probe -/
+
+/-- **Rollback.** `optimize_clamp` from a state that is consistent at the clamp: unless the step is
+    reported as an improvement (rollback, skip after a degenerate cell / a solver error, or an
+    exception at the start) the state afterwards is exactly the state before; if it is reported as an
+    improvement the grid quality afterwards is defined and strictly smaller. -/
+theorem T_C13_rollback [LinearOrder Q] {cfg : Cfg P Prm} {n : Nat} (hwf : WF cfg n) (o : Oracles P Q)
+    (st : St P Prm) (hlen : st.pts.length = n) (j : Nat) (hc : ConsAt cfg st j) (evals : List Prm) (sr : Bool) :
+    ((optimizeClamp cfg o st j evals sr).st = st ∧
+        ∀ s, (optimizeClamp cfg o st j evals sr).step = some s → s.flag ≠ .improved) ∨
+      ∃ gi gf, o.gq st.pts = some gi ∧ o.gq (optimizeClamp cfg o st j evals sr).st.pts = some gf ∧ gf < gi ∧
+        (optimizeClamp cfg o st j evals sr).raised = none ∧
+        (optimizeClamp cfg o st j evals sr).step = some ⟨j, .improved, gi, gf⟩ :=
+  optimizeClamp_spec hwf st hlen j hc evals sr
+
+/-- **Sensitivity probe.** `_get_sensitivity` gives back exactly the state it started from, whatever
+    it evaluates and wherever the evaluations stop. -/
+theorem T_C13_sens {cfg : Cfg P Prm} {n : Nat} (hwf : WF cfg n) (o : Oracles P Q) {st : St P Prm}
+    (hr : Rest cfg n st) {j idx : Nat} (hj : cfg.clampIdx[j]? = some idx) (evals : List Prm) :
+    (probeClamp cfg o st j idx evals).1 = st :=
+  probeClamp_eq hwf hr hj evals
+
+/-! ### quality never gets worse, nothing is raised -/
+
+/-- **Quality, one clamp.** -/
+theorem T_C13_noworse_clamp [LinearOrder Q] {cfg : Cfg P Prm} {n : Nat} (hwf : WF cfg n) (o : Oracles P Q)
+    (st : St P Prm) (hr : Rest cfg n st) (q0 : Q) (hq : o.gq st.pts = some q0) (j : Nat) (evals : List Prm)
+    (sr : Bool) : ∃ q1, o.gq (optimizeClamp cfg o st j evals sr).st.pts = some q1 ∧ q1 ≤ q0 :=
+  ((restLe_preserved hwf o q0).solve st j evals sr ⟨hr, q0, hq, le_refl _⟩).2
+
+/-- **Quality, whole run.** From a consistent state with defined grid quality `q0`, for every oracle,
+    schedule, tolerance criterion and iteration limit: the grid quality after `optimize` is defined
+    and `≤ q0` (also if an exception escaped). -/
+theorem T_C13_noworse [LinearOrder Q] [LinearOrder S] {cfg : Cfg P Prm} {n : Nat} (hwf : WF cfg n)
+    (o : Oracles P Q) (conv : List (Q × Q) → Bool) (maxIter : Nat) (sched : Nat → IterSched Prm S)
+    (st : St P Prm) (hr : Rest cfg n st) (q0 : Q) (hq : o.gq st.pts = some q0) :
+    ∃ q1, o.gq (optimize cfg o conv maxIter sched st).st.pts = some q1 ∧ q1 ≤ q0 :=
+  (optimizeLoop_rest (restLe_preserved hwf o q0) conv maxIter sched maxIter [] [] st ⟨hr, q0, hq, le_refl _⟩).2
+
+/-- **Quality, whole run, from any state.** The state right after `add_clamp` / `add_link` need not be
+    consistent (clamp constructors project the vertex onto the manifold, closer than TOL). If
+    `optimize` completes at least one iteration and nothing is raised, the final grid quality is
+    defined and not larger than the grid quality of the state the first round of sensitivity probes
+    leaves (every clamped vertex on its clamp position, every follower on its link). -/
+theorem T_C13_noworse_general [LinearOrder Q] [LinearOrder S] {cfg : Cfg P Prm} {n : Nat} (hwf : WF cfg n)
+    (o : Oracles P Q) (conv : List (Q × Q) → Bool) (maxIter : Nat) (sched : Nat → IterSched Prm S)
+    (st : St P Prm) (hlen : st.pts.length = n) (hplen : st.prm.length = cfg.clampIdx.length)
+    (hnr : (optimize cfg o conv maxIter sched st).raised = none)
+    (hit : (optimize cfg o conv maxIter sched st).hist ≠ []) :
+    ∃ qn q1, o.gq (probeAll cfg o (sched 0) cfg.clampIdx.zipIdx st).1.pts = some qn ∧
+      o.gq (optimize cfg o conv maxIter sched st).st.pts = some q1 ∧ q1 ≤ qn :=
+  optimizeLoop_noworse_general hwf conv maxIter sched maxIter [] [] st hlen hplen hnr hit
+
+/-- **No exception, never half-applied.** If a defined grid quality implies a defined junction
+    quality (every junction's cells are cells of the grid), then from a consistent state with defined
+    grid quality no `ValueError` leaves `optimize`: degenerate cells met by the solver or by a probe
+    are rolled back. -/
+theorem T_C13_noraise [LinearOrder Q] [LinearOrder S] {cfg : Cfg P Prm} {n : Nat} (hwf : WF cfg n)
+    (o : Oracles P Q) (hcoh : ∀ i pts, (o.gq pts).isSome → (o.jq i pts).isSome)
+    (conv : List (Q × Q) → Bool) (maxIter : Nat) (sched : Nat → IterSched Prm S)
+    (st : St P Prm) (hr : Rest cfg n st) (q0 : Q) (hq : o.gq st.pts = some q0) :
+    (optimize cfg o conv maxIter sched st).raised = none := by
+  have hp : NoRaise cfg o (RestLe cfg o n q0) :=
+    { toRestPreserved := restLe_preserved hwf o q0
+      probeOk := fun st j idx evals hj hR => by
+        obtain ⟨q, hq, _⟩ := hR.2
+        exact probeClamp_raised hwf hR.1 hj evals (by simp [hq]) hcoh
+      solveOk := fun st j idx evals sr hj hR => by
+        obtain ⟨q, hq, _⟩ := hR.2
+        exact optimizeClamp_noraise hwf st hR.1 hj evals sr (by simp [hq]) hcoh
+      gqOk := fun st hR => by obtain ⟨q, hq, _⟩ := hR.2; simp [hq] }
+  exact optimizeLoop_noraise hp conv maxIter sched maxIter [] [] st ⟨hr, q0, hq, le_refl _⟩
+
+/-! ### the loop -/
+
+/-- **Fuel.** `max_iterations` rounds of the `while not driver.converged` loop always suffice: the
+    fuelled recursion of the model ends by the loop's own exit condition, after at most
+    `max_iterations` iterations. -/
+theorem T_C13_fuel [LinearOrder Q] [LinearOrder S] (cfg : Cfg P Prm) (o : Oracles P Q)
+    (conv : List (Q × Q) → Bool) (maxIter : Nat) (sched : Nat → IterSched Prm S) (st : St P Prm) :
+    (optimize cfg o conv maxIter sched st).outOfFuel = false ∧
+      (optimize cfg o conv maxIter sched st).hist.length ≤ maxIter := by
+  have := optimizeLoop_fuel cfg o conv maxIter sched maxIter [] [] st (by simp)
+  exact ⟨this.1, this.2 (by simp)⟩
+
+/-- **Order.** Sorting by sensitivity only permutes the clamps: each is optimised exactly once per
+    iteration, in whatever order the sensitivities dictate. -/
+theorem T_C13_order [LinearOrder S] (keys : List (Nat × S)) : (sortDesc keys).Perm keys := by
+  unfold sortDesc
+  suffices h : ∀ acc : List (Nat × S), (keys.foldl (fun acc x => insertDesc x acc) acc).Perm (keys ++ acc) by
+    simpa using h []
+  induction keys with
+  | nil => intro acc; simp
+  | cons x xs ih =>
+      intro acc
+      simp only [List.foldl_cons, List.cons_append]
+      exact (ih _).trans ((List.Perm.append_left xs (insertDesc_perm x acc)).trans List.perm_middle)
+
+/-! ### back-port -/
+
+/-- **Back-port, mesh.** `MeshOptimizer.backport` makes the mesh vertices equal to the grid's final
+    points (the grid was built from as many points as the mesh has vertices). -/
+theorem T_C13_backport_mesh (verts pts : List P) (h : verts.length = pts.length) :
+    backportMesh verts pts = pts := by
+  apply List.ext_getElem?
+  intro i
+  have := foldl_set_zipIdx pts 0 verts i
+  simp only [Nat.zero_le, Nat.zero_add, true_and, Nat.sub_zero, h] at this
+  unfold backportMesh
+  have e : (fun (vs : List P) (x : P × Nat) => match x with | (p, i) => vs.set i p) = fun vs x => vs.set x.2 x.1 := by
+    funext vs x; cases x; rfl
+  rw [e, this]
+  split
+  · rfl
+  · next hn =>
+      have : pts.length ≤ i := by omega
+      rw [List.getElem?_eq_none this, List.getElem?_eq_none (by omega)]
+
+/-- **Back-port, sketch.** `SketchOptimizer.backport` = `MappedSketch.update(grid.points)`: when it
+    succeeds (no index out of range) and every point index occurs in some quad (what `MappedSketch`
+    needs anyway to reconstruct `positions`), the sketch's positions afterwards are the grid's final
+    points. -/
+theorem T_C13_backport_sketch (quads : List (List Nat)) (pts : List P) (faces : List (List P))
+    (hu : sketchUpdate quads pts = some faces) (hcover : ∀ i, i < pts.length → i ∈ quads.flatten)
+    (hne : pts ≠ []) : sketchPositions quads faces = some pts := by
+  unfold sketchUpdate at hu
+  obtain ⟨hl, hs⟩ := flatten_mapM (fun iq => pts[iq]?) quads faces hu
+  have hrange : ∀ i ∈ quads.flatten, i < pts.length := by
+    intro i hi
+    obtain ⟨k, hk⟩ := List.getElem?_of_mem hi
+    obtain ⟨b, _, hb⟩ := hs k i hk
+    exact (List.getElem?_eq_some_iff.mp hb).1
+  have hpos : 0 < pts.length := List.length_pos_iff.mpr hne
+  have hlast : pts.length - 1 ∈ quads.flatten := hcover _ (by omega)
+  unfold sketchPositions
+  dsimp only
+  cases hm : quads.flatten.max? with
+  | none => rw [List.max?_eq_none_iff] at hm; rw [hm] at hlast; cases hlast
+  | some mx =>
+      obtain ⟨hmem, hmax⟩ := List.max?_eq_some_iff.mp hm
+      have hmx : mx + 1 = pts.length := by
+        have h1 := hrange mx hmem
+        have h2 := hmax _ hlast
+        omega
+      dsimp only
+      have hval : ∀ i, i < pts.length →
+          (if i ∈ quads.flatten then faces.flatten[List.idxOf i quads.flatten]? else none) = pts[i]? := by
+        intro i hi
+        have hin := hcover i hi
+        rw [if_pos hin]
+        obtain ⟨b, hb1, hb2⟩ := hs _ i (List.getElem?_idxOf hin)
+        rw [hb1, hb2]
+      have hsome : ((List.range (mx + 1)).mapM
+          (fun i => if i ∈ quads.flatten then faces.flatten[List.idxOf i quads.flatten]? else none)).isSome := by
+        apply mapM_option_isSome
+        intro a ha
+        have : a < pts.length := by rw [← hmx]; exact List.mem_range.mp ha
+        rw [hval a this, List.getElem?_eq_getElem this]; rfl
+      obtain ⟨r, hr⟩ := Option.isSome_iff_exists.mp hsome
+      rw [hr]
+      obtain ⟨rl, rs⟩ := mapM_option_spec _ _ r hr
+      congr 1
+      apply List.ext_getElem?
+      intro k
+      by_cases hk : k < pts.length
+      · have hk' : (List.range (mx + 1))[k]? = some k := by
+          rw [List.getElem?_range (by omega)]
+        obtain ⟨b, hb1, hb2⟩ := rs k k hk'
+        rw [hb1, ← hb2, hval k hk]
+      · have h1 : r.length ≤ k := by rw [rl, List.length_range]; omega
+        rw [List.getElem?_eq_none h1, List.getElem?_eq_none (by omega)]
+
+/-! ### non-vacuity: a concrete instance satisfying every hypothesis used above, on which the
+optimiser really moves something, rolls back and skips.
+
+Points and parameters are integers; one free clamp on junction 1 (`pos = id`), junction 2 follows
+it at distance 10; quality `(x₁ - 2)²`, degenerate at `x₁ = 7`.  Iteration 0 evaluates 4, 3, 2 and
+keeps 2 (quality 9 → 0); iteration 1 evaluates 3 and then the degenerate 7: skipped and restored. -/
+
+def exCfg : Cfg Int Int :=
+  { clampIdx := [1], pos := fun _ p => p, links := [⟨1, 2, 0⟩], linkFn := fun _ p => p + 10 }
+
+def exQuality (pts : List Int) : Option Int :=
+  match pts[1]? with
+  | some x => if x = 7 then none else some ((x - 2) * (x - 2))
+  | none => none
+
+def exO : Oracles Int Int := { gq := exQuality, jq := fun _ pts => exQuality pts }
+
+def exSt0 : St Int Int := { pts := [0, 5, 15], prm := [5] }
+
+def exSched (it : Nat) : IterSched Int Int :=
+  { probe := fun _ => ([5, 6], 1)
+    solve := fun _ _ => if it = 0 then ([4, 3, 2], false) else ([3, 7], false) }
+
+def exConv : List (Int × Int) → Bool := fun _ => false
+
+theorem T_C13_ex_wf : WF exCfg 3 := ⟨by decide, by decide, by decide, by decide, by decide⟩
+
+theorem T_C13_ex_rest : Rest exCfg 3 exSt0 := by
+  refine ⟨rfl, rfl, fun j idx p hj hp => ?_⟩
+  match j with
+  | 0 =>
+      simp [exCfg] at hj; subst hj
+      simp [exSt0] at hp; subst hp
+      refine ⟨rfl, fun l hl => ?_⟩
+      simp [linksOf, exCfg] at hl; subst hl; rfl
+  | j + 1 => simp [exCfg] at hj
+
+/-- the instance run: vertex 1 moved from 5 to 2, its follower from 15 to 12, vertex 0 untouched,
+    nothing raised, two iterations with qualities 9 → 0 → 0, second step skipped -/
+example : (optimize exCfg exO exConv 2 exSched exSt0).st.pts = [0, 2, 12] ∧
+    (optimize exCfg exO exConv 2 exSched exSt0).st.prm = [2] ∧
+    (optimize exCfg exO exConv 2 exSched exSt0).raised = none ∧
+    (optimize exCfg exO exConv 2 exSched exSt0).hist = [(9, 0), (0, 0)] ∧
+    (optimize exCfg exO exConv 2 exSched exSt0).steps.map (·.map (·.flag)) = [[.improved], [.skip]] := by decide
+
+/-- hypotheses of `T_C13_frame` (vertex 0 is not movable, vertices 1 and 2 are) -/
+example : ¬ movable exCfg 0 ∧ movable exCfg 1 ∧ movable exCfg 2 := by
+  unfold movable; decide
+
+/-- hypotheses of `T_C13_on`, `T_C13_sens`, `T_C13_rollback`, `T_C13_noworse`, `T_C13_noraise` -/
+example : WF exCfg 3 ∧ Rest exCfg 3 exSt0 ∧ exO.gq exSt0.pts = some 9 ∧
+    (∀ i pts, (exO.gq pts).isSome → (exO.jq i pts).isSome) ∧ ConsAt exCfg exSt0 0 ∧ exCfg.clampIdx[0]? = some 1 :=
+  ⟨T_C13_ex_wf, T_C13_ex_rest, by decide, fun _ _ h => h, T_C13_ex_rest.2.2 0, rfl⟩
+
+/-- hypotheses of `T_C13_on_established` and `T_C13_noworse_general`: a state that is NOT consistent (vertex 1 at 6, clamp at 5)
+    becomes consistent -/
+example : ¬ Consistent exCfg ⟨[0, 6, 15], [5]⟩ ∧
+    (optimize exCfg exO exConv 2 exSched ⟨[0, 6, 15], [5]⟩).raised = none ∧
+    (optimize exCfg exO exConv 2 exSched ⟨[0, 6, 15], [5]⟩).hist ≠ [] ∧
+    (optimize exCfg exO exConv 2 exSched ⟨[0, 6, 15], [5]⟩).st.pts = [0, 2, 12] := by
+  refine ⟨fun h => ?_, by decide, by decide, by decide⟩
+  have := (h 0 1 5 rfl rfl).1
+  simp [exCfg] at this
+
+/-- hypotheses of `T_C13_bounds` with the bounds 2 ≤ p ≤ 7 -/
+example : (∀ (j : Nat) (p : Int), exSt0.prm[j]? = some p → 2 ≤ p ∧ p ≤ 7) ∧ ∀ k, SchedOK (fun _ p => 2 ≤ p ∧ p ≤ 7) (exSched k) := by
+  refine ⟨fun j p h => ?_, fun k => ⟨fun j e he => ?_, fun k' j e he => ?_⟩⟩
+  · match j with
+    | 0 => simp [exSt0] at h; subst h; decide
+    | j + 1 => simp [exSt0] at h
+  · simp [exSched] at he; rcases he with rfl | rfl <;> decide
+  · simp only [exSched] at he
+    split at he <;> simp at he <;> rcases he with rfl | rfl | rfl <;> decide
+
+/-- hypotheses of `T_C13_backport_sketch`: a 2 x 1 mapped sketch -/
+example : sketchUpdate [[0, 1, 4, 3], [1, 2, 5, 4]] ([10, 11, 12, 13, 14, 15] : List Int)
+      = some [[10, 11, 14, 13], [11, 12, 15, 14]] ∧
+    (∀ i, i < ([10, 11, 12, 13, 14, 15] : List Int).length → i ∈ [[0, 1, 4, 3], [1, 2, 5, 4]].flatten) ∧
+    sketchPositions [[0, 1, 4, 3], [1, 2, 5, 4]] [[10, 11, 14, 13], [11, 12, 15, 14]]
+      = some ([10, 11, 12, 13, 14, 15] : List Int) := by
+  refine ⟨by decide, ?_, by decide⟩
+  intro i hi
+  have : i < 6 := hi
+  interval_cases i <;> decide
+
+/-- hypothesis of `T_C13_backport_mesh` -/
+example : backportMesh [10, 20, 30] [0, 2, 12] = ([0, 2, 12] : List Int) := by decide
+
+
 
 end CBV.C13
